@@ -15,6 +15,11 @@ property of the spec functions alone: lemma `gram` (induction on k, one plane-ro
 It is transported to the result array by a ghost induction after the loop (equal summands => equal sums).
 All products / quotients are opaque symbols shared by program and specification (pyvc/ext/c05.py (3)); the algebra of ONE
 rotation is isolated in five quantifier-free lemmas proved by nlsat on every run (pyvc/ext/c05.py (5)).
+
+`cholinsertlast(U, x)` (proof; np.insert, scipy.linalg.solve_triangular and ndarray.dot ASSUMED, ext A3-A5) returns the factor
+of the bordered matrix [[U^T U, x[:n]], [x[:n]^T, x[n]]]; the ghost solution c05_fs of the triangular system is linked to the
+array scipy returns by a ghost induction (uniqueness of forward substitution).
+`choldeleteindexes` (two variants, by aliasing of the result) and `cholinsert` are bounded: run-time contracts only.
 """
 import math
 import numpy as np
@@ -131,7 +136,7 @@ def _mk(sg, sign, op):
                     "%s(U[k, k], %s, U[k, j], %s))), pat=%s))" % (uk("k", "j"), gr, xk("k", "k"), gu, xk("k", "k"), xk("k", "j"), uk("k", "j"))],
             lemmas=[
                 # after k rotations: (rows < k of the new factor)^T (same rows) +/- x_k x_k^T == (rows < k of U)^T (same) +/- x x^T
-                dict(name="gram", induct="k", lo=0, hi="n",
+                dict(name="gram", induct="k", lo=0, hi="n", export=False,        # (used by `final` only)
                      stmt="forall(k, n, lambda i: forall(i, n, lambda j: implies(%s, %s %s %s == %s %s %s), pat=%s))"
                      % (ok("k"), S_u.format(m="k"), op, xxk, S_0.format(m="k"), op, xx0, xxk)),
                 # the finished column pair (i, j), i <= j
